@@ -1,1 +1,51 @@
-From PM Require Import Model.Step.
+(* C11 — replace-family edits keep the document valid and keep the surrounding content.
+   Every operation of the replace family (replace, replace_with, insert, delete, replace_range,
+   replace_range_with, delete_range) plans ONE step and records it through Transform.step; the step is a
+   ReplaceStep (or, when the fitter moves the inline content after the range into the slice, a
+   ReplaceAroundStep).  The theorems below are about what such a step does, for every schema, every valid
+   document, every range and every slice (open sides of the claimed depth): the result is valid, every
+   token before the step's start and after its end is still there, in order and unmodified, what lies
+   between them is exactly the tokens the slice stands for, and a deletion removes exactly the range.
+   [DT] is the document's token sequence, [IT] the tokens a slice stands for, both up to Python's True == 1
+   on attribute values (TokenBasics.tnorm); [leaves] keeps the text and leaf tokens.
+   What the planner (the fitter; not modelled) contributes — it never raises on the bundled schemas, the
+   step's range starts at the requested start, the fitted slice's text is a subsequence of the given
+   slice's text — is evaluated per case by Corr.C11 on the steps the implementation emits. *)
+From Coq Require Import List Arith.
+From PM Require Import Model.Data Model.Mark Model.Tree Model.Step Spec.Tokens
+  Proofs.ReplaceValid Proofs.SliceSides Proofs.TokenBasics Proofs.ReplaceTokens Proofs.SliceShape Proofs.TokenLaws
+  Proofs.StepAlgebra.
+Import ListNotations.
+
+Theorem C11_result_valid : forall s from to sl structure doc d',
+  check s doc = true ->
+  OpenOK s (sl_content sl) (sl_open_start sl) (sl_open_end sl) ->
+  apply s (SReplace from to sl structure) doc = ROk d' ->
+  check s d' = true.
+Proof. exact apply_replace_valid. Qed.
+Print Assumptions C11_result_valid.
+
+Theorem C11_outside_content_kept : forall s from to sl structure doc d',
+  check s doc = true ->
+  Shape s (sl_content sl) (sl_open_start sl) (sl_open_end sl) ->
+  apply s (SReplace from to sl structure) doc = ROk d' ->
+  firstn from (DT s d') = firstn from (DT s doc) /\
+  firstn (length (IT s sl)) (skipn from (DT s d')) = IT s sl /\
+  skipn (from + length (IT s sl)) (DT s d') = skipn to (DT s doc).
+Proof. exact replace_step_keeps_outside. Qed.
+Print Assumptions C11_outside_content_kept.
+
+Theorem C11_text_and_leaves : forall s from to sl structure doc d',
+  check s doc = true ->
+  Shape s (sl_content sl) (sl_open_start sl) (sl_open_end sl) ->
+  apply s (SReplace from to sl structure) doc = ROk d' ->
+  leaves (DT s d') = leaves (firstn from (DT s doc)) ++ leaves (IT s sl) ++ leaves (skipn to (DT s doc)).
+Proof. exact replace_step_leaves. Qed.
+Print Assumptions C11_text_and_leaves.
+
+Theorem C11_delete_exact : forall s from to structure doc d',
+  check s doc = true ->
+  apply s (SReplace from to slice_empty structure) doc = ROk d' ->
+  DT s d' = firstn from (DT s doc) ++ skipn to (DT s doc).
+Proof. exact delete_step_exact. Qed.
+Print Assumptions C11_delete_exact.
